@@ -110,6 +110,15 @@ func condString(e ast.Expr) string {
 		return condString(x.X) + "." + x.Sel.Name
 	case *ast.IndexExpr:
 		return condString(x.X) + "[" + condString(x.Index) + "]"
+	case *ast.SliceExpr:
+		lo, hi := "", ""
+		if x.Low != nil {
+			lo = condString(x.Low)
+		}
+		if x.High != nil {
+			hi = condString(x.High)
+		}
+		return condString(x.X) + "[" + lo + ":" + hi + "]"
 	}
 	return exprString(e)
 }
@@ -207,6 +216,59 @@ func extractC18() *lean {
 	})
 	l.def("cacheIndexExprs", "List String", leanStrList(idx), idx)
 	l.def("cachePopKey", "List String", leanStrList(popKey), popKey)
+	// deepening round: the control flow of the stateful cache core (conditions of every if/for, assignments, in source order)
+	for _, fnName := range []string{"get", "insert", "removeExpiredEntries", "pop", "RoundTrip", "cacheResponse"} {
+		var flow []string
+		if fd := funcDecl(ca, fnName); fd != nil {
+			ast.Inspect(fd.Body, func(n ast.Node) bool {
+				switch x := n.(type) {
+				case *ast.IfStmt:
+					flow = append(flow, "if "+condString(x.Cond))
+				case *ast.ForStmt:
+					if x.Cond != nil {
+						flow = append(flow, "for "+condString(x.Cond))
+					} else {
+						flow = append(flow, "for")
+					}
+				case *ast.RangeStmt:
+					flow = append(flow, "range "+condString(x.X))
+				case *ast.AssignStmt:
+					ls, rs := make([]string, len(x.Lhs)), make([]string, len(x.Rhs))
+					for i, e := range x.Lhs {
+						ls[i] = condString(e)
+					}
+					for i, e := range x.Rhs {
+						rs[i] = condString(e)
+					}
+					flow = append(flow, strings.Join(ls, ", ")+" "+x.Tok.String()+" "+strings.Join(rs, ", "))
+				case *ast.ExprStmt:
+					flow = append(flow, "call "+condString(x.X))
+				case *ast.DeferStmt:
+					return false
+				case *ast.BranchStmt:
+					flow = append(flow, x.Tok.String())
+				case *ast.ReturnStmt:
+					rs := make([]string, len(x.Results))
+					for i, r := range x.Results {
+						rs[i] = condString(r)
+					}
+					flow = append(flow, "return "+strings.Join(rs, ", "))
+				case *ast.CompositeLit:
+					return false
+				}
+				return true
+			})
+		}
+		l.def("cacheFlow_"+fnName, "List String", leanStrList(flow), flow)
+	}
+	maxCache := "absent"
+	ast.Inspect(ca, func(n ast.Node) bool {
+		if vs, ok := n.(*ast.ValueSpec); ok && len(vs.Names) == 1 && vs.Names[0].Name == "maxCacheTime" && len(vs.Values) == 1 {
+			maxCache = condString(vs.Values[0])
+		}
+		return true
+	})
+	l.def("maxCacheTimeExpr", "String", fmt.Sprintf("%q", maxCache), maxCache)
 
 	// web.go NewResolver: redirect check installed on the client, and that function's refusing conditions
 	var webConds []string
@@ -437,6 +499,26 @@ func extractC18() *lean {
 			}
 		}
 	}
+	// the SQL lookup of Latest: every Where / Order / First clause of the query chain, with its arguments (wave 8: the
+	// document key is compared with `=`, on the exact DID string)
+	var latestQuery []string
+	for _, d := range dd.Decls {
+		if fd, ok := d.(*ast.FuncDecl); ok && fd.Name.Name == "Latest" {
+			ast.Inspect(fd.Body, func(n ast.Node) bool {
+				if c, ok := n.(*ast.CallExpr); ok {
+					if sel, ok := c.Fun.(*ast.SelectorExpr); ok && (sel.Sel.Name == "Where" || sel.Sel.Name == "Order" || sel.Sel.Name == "First" || sel.Sel.Name == "Or" || sel.Sel.Name == "Not" || sel.Sel.Name == "Raw" || sel.Sel.Name == "Joins") {
+						args := make([]string, len(c.Args))
+						for i, a := range c.Args {
+							args[i] = condString(a)
+						}
+						latestQuery = append(latestQuery, sel.Sel.Name+"("+strings.Join(args, ", ")+")")
+					}
+				}
+				return true
+			})
+		}
+	}
+	l.def("latestQuery", "List String", leanStrList(latestQuery), latestQuery)
 	l.def("localLatestArgs", "List String", leanStrList(latestArgs), latestArgs)
 	l.def("localNotAfterAssignments", "List String", leanStrList(notAfterDecl), notAfterDecl)
 	l.def("latestDefaultBound", "List String", leanStrList(latestDefault), latestDefault)
